@@ -845,6 +845,32 @@ func ruleTAB4(w *World) []Ob {
 	} else {
 		l.bad(p.FuncID(fn), "error lists are the computed lists", p.Pos(fn.Pos()), "the verify error does not carry extra/missing in the fields of the same meaning ("+strings.Join(sortedKeys(carries), ", ")+")", "verdict")
 	}
+	// the walk follows a root that is a symbolic link: fs.WalkDir over os.DirFS opens the root, whereas
+	// filepath.WalkDir / filepath.Walk lstat it and do not descend
+	if vr := p.Func("(*gtree.defaultVerifierSimple).verifyRoot"); vr != nil {
+		var fam []*ssa.Function
+		fam = append(fam, vr)
+		fam = append(fam, vr.AnonFuncs...)
+		walk := ""
+		for _, f := range fam {
+			allInstrs(f, func(in ssa.Instruction) {
+				if c, ok := in.(*ssa.Call); ok {
+					switch n := calleeFullName(c.Common()); n {
+					case "io/fs.WalkDir", "path/filepath.WalkDir", "path/filepath.Walk":
+						walk = n
+					}
+				}
+			})
+		}
+		switch walk {
+		case "io/fs.WalkDir":
+			l.ok(p.FuncID(vr), "directory walk opens its root", p.Pos(vr.Pos()), "fs.WalkDir over os.DirFS(root): a root that is a symlink to a directory is descended like any directory", false, "sets")
+		case "":
+			l.undecided(p.FuncID(vr), "directory walk opens its root", p.Pos(vr.Pos()), "no directory walk found in verifyRoot", "sets")
+		default:
+			l.bad(p.FuncID(vr), "directory walk opens its root", p.Pos(vr.Pos()), walk+" lstats its root and does not follow a symbolic link there: every node below a symlinked root is reported missing although it exists", "sets")
+		}
+	}
 	// the directory walk visits everything: its callback never prunes (fs.SkipDir / fs.SkipAll)
 	if vr := p.Func("(*gtree.defaultVerifierSimple).verifyRoot"); vr != nil {
 		for _, cb := range vr.AnonFuncs {
@@ -1395,6 +1421,31 @@ func ruleTAB7(w *World) []Ob {
 					printed = true
 				}
 			})
+			silentExit := ""
+			var printCalls []*ssa.Call
+			allInstrs(m, func(in ssa.Instruction) {
+				if c, ok := in.(*ssa.Call); ok && isStderrWrite(c.Common()) {
+					printCalls = append(printCalls, c)
+				}
+			})
+			allInstrs(m, func(in ssa.Instruction) {
+				c, ok := in.(*ssa.Call)
+				if !ok || calleeFullName(c.Common()) != "os.Exit" {
+					return
+				}
+				dom := false
+				for _, pc := range printCalls {
+					if dominatesInstr(pc, c) {
+						dom = true
+					}
+				}
+				if !dom {
+					silentExit = p.InstrPos(c)
+				}
+			})
+			if silentExit != "" {
+				printed = false
+			}
 			if printed {
 				l.ok("cmd/gtree.main", "diagnostic on stderr", p.InstrPos(run), "the error of app.Run is written to os.Stderr whenever it is non-nil", true, "exit")
 			} else {
